@@ -52,32 +52,35 @@ def run(repo: Repo, R: Report) -> None:
     rets = [n for n in walk_no_nested(io) if isinstance(n, ast.Return) and isinstance(n.value, ast.Tuple) and isinstance(n.value.elts[0], ast.Constant) and n.value.elts[0].value == "context"]
     ok = len(rets) == 1 and "key_origin" in ast.unparse(rets[0].value.elts[1]) and "name" in ast.unparse(rets[0].value.elts[1])
     R.check(ok, r_sib, PARAMRES, "inspect_origin", "context origin index = key_origin[name]", "the producing node reported for a context parameter is not looked up under the parameter's name", io.lineno)
+    CLS = "classify_unknown_config_params"
     sites = []
+    units: Dict[Tuple[str, str], ast.AST] = {}
     for rel in (NODES, BUILDER):
         mod = repo.module(rel)
-        for qn, f in [(q, n) for q, n in mod.defs.items() if isinstance(n, FuncNode)]:
+        for qn, f in _classifier_units(repo, rel, CLS):
+            units[(rel, qn)] = f
+            _defs, resolved = _local_defs(f)
             for c in calls_in(f):
-                if call_attr(c) == "classify_unknown_config_params":
+                if call_attr(c) == CLS:
                     t = repo.resolve_call(mod, c)
                     ok = len(t) == 1 and t[0][0].rel == PARAMRES
-                    pc, cfg = kwarg(c, "processor_cls"), kwarg(c, "processor_config")
-                    ok = ok and pc is not None and "processor" in ast.unparse(pc) and "__class__" in ast.unparse(pc) and cfg is not None and ast.unparse(cfg).endswith("processor_config")
+                    pc, cfg = _bound_arg(c, t[0][1] if ok else None, "processor_cls", 0), _bound_arg(c, t[0][1] if ok else None, "processor_config", 1)
+                    # the arguments as expressions over the unit's inputs (a named class / configuration reads like the expression)
+                    pc, cfg = (resolved(pc) if pc is not None else None), (resolved(cfg) if cfg is not None else None)
+                    ok = ok and pc is not None and _class_of_processor(pc) and cfg is not None and ast.unparse(cfg).endswith("processor_config")
                     sites.append((rel, qn, c, ok))
     for rel, qn, c, ok in sites:
         R.check(ok, r_sib, rel, qn, norm(c)[:90], "unknown parameters are classified by something other than the shared classifier on (processor class, node configuration)", c.lineno)
     if len(sites) < 3:
         raise AnalysisError(f"{len(sites)} call sites of classify_unknown_config_params found (3 confirmed by reading)")
     # node constructors raise when issues exist
-    nmod = repo.module(NODES)
-    # the node constructors by role: the functions of nodes.py that call the shared classifier
+    # the node constructors by role: the functions of nodes.py whose normal form (private helpers inlined) calls the shared classifier
     ctor_qns = sorted({qn for rel, qn, _c, _ok in sites if rel == NODES})
     if len(ctor_qns) < 2:
         raise AnalysisError(f"{len(ctor_qns)} function(s) of nodes.py call classify_unknown_config_params (the constructors of the data-node and context-node base classes: 2 confirmed by reading)")
     for ctor_qn in ctor_qns:
-        init = repo.func(NODES, ctor_qn)
-        iv = next((n.targets[0].id for n in walk_no_nested(init) if isinstance(n, ast.Assign) and isinstance(n.targets[0], ast.Name) and isinstance(n.value, ast.Call) and call_attr(n.value) == "classify_unknown_config_params"), "__missing__")
-        ifs = [n for n in walk_no_nested(init) if isinstance(n, ast.If) and dotted_name(n.test) == iv]
-        ok = bool(ifs) and isinstance(ifs[0].body[-1], ast.Raise) and "InvalidNodeParameterError" in ast.unparse(ifs[0].body[-1]) and "['name']" in ast.unparse(ifs[0].body[-1]).replace('"', "'") and iv in {x.id for x in ast.walk(ifs[0].body[-1]) if isinstance(x, ast.Name)}
+        init = units[(NODES, ctor_qn)]
+        ok = all(_unknown_rejected(init, c) for c in calls_in(init) if call_attr(c) == CLS)
         R.check(ok, r_sib, NODES, ctor_qn, "if issues: raise InvalidNodeParameterError(invalid={names})", "unknown parameters found by the classifier are not rejected at node construction with the same names", init.lineno)
 
     # ------------------------------------------------------------------ D3
@@ -355,6 +358,103 @@ def _deleted_availability(bf: ast.AST, loop: ast.For, g: CFG, DK: str, SUP: str,
 
 def _defined_before_loop(fn: ast.AST, loop: ast.For, name: str) -> bool:
     return any(isinstance(n, (ast.Assign, ast.AnnAssign)) and any(dotted_name(t) == name for t in (n.targets if isinstance(n, ast.Assign) else [n.target])) and n.lineno < loop.lineno for n in walk_no_nested(fn))
+
+
+# =====================================================================================================
+# D1: call sites of the shared unknown-parameter classifier
+# =====================================================================================================
+def _classifier_units(repo: Repo, rel: str, cls_name: str) -> List[Tuple[str, ast.AST]]:
+    """(qualname, normal form) of the functions of *rel* that classify unknown parameters: their normal form (private
+    same-module helpers inlined, pure single-assignment locals substituted) calls the shared classifier.  A private helper
+    that only exists inlined in its callers is not a unit of its own - the callers are (extract-helper refactor)."""
+    from ..normal import nfunc
+
+    mod = repo.module(rel)
+    funcs = {q: n for q, n in mod.defs.items() if isinstance(n, FuncNode)}
+    cand = {q for q, n in funcs.items() if any(call_attr(c) == cls_name for c in calls_in(n))}
+    changed = True
+    while changed:
+        changed = False
+        short = {q.rsplit(".", 1)[-1] for q in cand}
+        short = {x for x in short if x.startswith("_") and not x.startswith("__")}
+        for q, n in funcs.items():
+            if q not in cand and any(call_attr(c) in short for c in calls_in(n)):
+                cand.add(q)
+                changed = True
+    forms = {q: nfunc(repo, rel, q, copyprop="all") for q in sorted(cand)}
+    inlined = {name.rsplit(".", 1)[-1] for f in forms.values() for name in getattr(f, "_inlined", [])}
+    out = []
+    for q, f in forms.items():
+        if not any(call_attr(c) == cls_name for c in calls_in(f)):
+            continue
+        if q.rsplit(".", 1)[-1] in inlined and any(q2 != q and q.rsplit(".", 1)[-1] in {x.rsplit(".", 1)[-1] for x in getattr(f2, "_inlined", [])} for q2, f2 in forms.items()):
+            continue
+        out.append((q, f))
+    return out
+
+
+def _bound_arg(c: ast.Call, target: Optional[ast.AST], name: str, pos: int) -> Optional[ast.AST]:
+    """The argument bound to parameter *name* (keyword, or positional by the callee's signature)."""
+    v = kwarg(c, name)
+    if v is not None:
+        return v
+    if target is not None and isinstance(target, FuncNode):
+        ps = [a.arg for a in target.args.posonlyargs + target.args.args]
+        if name in ps:
+            pos = ps.index(name)
+    if pos < len(c.args) and not any(isinstance(a, ast.Starred) for a in c.args[: pos + 1]):
+        return c.args[pos]
+    return None
+
+
+def _class_of_processor(e: ast.AST) -> bool:
+    """`<..>processor.__class__` / `type(<..>processor)`: the class of the processor instance the node holds."""
+    if isinstance(e, ast.Attribute) and e.attr == "__class__":
+        inner = e.value
+    elif isinstance(e, ast.Call) and call_name(e) == "type" and len(e.args) == 1 and not e.keywords:
+        inner = e.args[0]
+    else:
+        return False
+    d = dotted_name(inner)
+    return bool(d) and d.rsplit(".", 1)[-1] == "processor"
+
+
+def _unknown_rejected(fn: ast.AST, c: ast.Call) -> bool:
+    """Every path of *fn* from the classifier call *c* on which its result is not known to be empty ends in
+    `raise InvalidNodeParameterError(..)` built from the names of the result (decided on the CFG: the result may be bound by
+    an assignment or an assignment expression, tested directly / negated / by len(), the raise may be the guard's body or
+    follow an early return)."""
+    st = stmt_of(c)
+    iv: Optional[str] = None
+    for a in ast.walk(st):
+        if isinstance(a, ast.NamedExpr) and a.value is c and isinstance(a.target, ast.Name):
+            iv = a.target.id
+    if iv is None and isinstance(st, (ast.Assign, ast.AnnAssign)) and st.value is c and len(_targets(st)) == 1 and isinstance(_targets(st)[0], ast.Name):
+        iv = _targets(st)[0].id
+    if iv is None:
+        return False
+    # the result is bound once (no later rebinding hides the issues from the test)
+    binds = [x for x in ast.walk(fn) if isinstance(x, ast.Name) and x.id == iv and isinstance(x.ctx, (ast.Store, ast.Del))]
+    if len(binds) != 1:
+        return False
+
+    def is_target(e: ast.AST) -> bool:
+        return _is_name(e, iv) or (isinstance(e, ast.NamedExpr) and _is_name(e.target, iv))
+
+    g = CFG(fn)
+    good: Set[int] = set()
+    for n in g.nodes:
+        if n.kind == "stmt" and isinstance(n.ast, ast.Raise) and n.ast.exc is not None:
+            txt = ast.unparse(n.ast.exc).replace('"', "'")
+            if "InvalidNodeParameterError" in txt and "['name']" in txt and iv in _names_of(n.ast.exc):
+                good.add(n.id)
+    if not good:
+        return False
+    starts = g.nodes_for(st)
+    if not starts:
+        return False
+    seen = g.reach(starts, blocked=good, blocked_edges=_edges_implying(g, _empty_atom(is_target)))
+    return g.ret_exit not in seen
 
 
 # =====================================================================================================
@@ -799,6 +899,7 @@ def _top_nodes(g: CFG, st: ast.AST, fn: ast.AST) -> List[int]:
 
 def _compat_rule(repo: Repo, R: Report) -> None:
     """_is_compatible(out, in) may answer yes only where the run-time gate lets the data through."""
+    from ..cfg import reaching_defs
     from ..normal import nfunc
 
     r = R.rule("C02-D3-compatible-implies-gate", "inspection's compatibility test answers yes only when the predecessor's declared output type equals or is a subclass of the node's input type - the condition under which the run-time gate issubclass(type(data), input_type) accepts the data; it has no other accepting branch", 2)
@@ -823,14 +924,44 @@ def _compat_rule(repo: Repo, R: Report) -> None:
 
     g = CFG(ic)
     seen = g.reach([g.entry], blocked_edges=_edges_implying(g, gate))
+    stored = {x.id for x in ast.walk(ic) if isinstance(x, ast.Name) and isinstance(x.ctx, (ast.Store, ast.Del))}
+    params_fixed = p0 not in stored and p1 not in stored
+
+    def answers(v: Optional[ast.AST], at: int, depth: int = 0) -> List[ast.AST]:
+        """The expressions whose value `v` (read at CFG node *at*) can be: a local that holds the answer is followed to the
+        assignments that reach the read (try: answer = <test> / except: .. / else: return answer; answer computed first and
+        returned after a guard).  A test established when the local was assigned still holds at the return because the two
+        parameters are never rebound; a definition that is not a plain `name = <expr>` is kept as the opaque name."""
+        if v is None or depth > 4:
+            return [v] if v is not None else []
+        if isinstance(v, ast.Name) and params_fixed:
+            defs = reaching_defs(g, v.id, at)
+            if defs and all(d.kind == "stmt" and isinstance(d.ast, (ast.Assign, ast.AnnAssign)) and d.ast.value is not None and all(isinstance(t, ast.Name) for t in _targets(d.ast)) for d in defs):
+                out: List[ast.AST] = []
+                for d in defs:
+                    out.extend(answers(d.ast.value, d.id, depth + 1))
+                return out
+            return [v]
+        if isinstance(v, ast.IfExp):
+            return answers(v.body, at, depth + 1) + answers(v.orelse, at, depth + 1)
+        if isinstance(v, ast.BoolOp) and params_fixed:
+            # operands that are locals with exactly one reaching plain definition are read through
+            vals = []
+            for o in v.values:
+                alt = answers(o, at, depth + 1) if isinstance(o, ast.Name) else [o]
+                vals.append(alt[0] if len(alt) == 1 else o)
+            return [ast.BoolOp(op=v.op, values=vals)]
+        return [v]
+
     bad = []
     for nid in seen:
         n = g.nodes[nid]
         if n.kind == "stmt" and isinstance(n.ast, ast.Return):
-            v = n.ast.value
-            falsy = v is None or (isinstance(v, ast.Constant) and not v.value)
-            if not falsy and not _implies(v, gate, True):
-                bad.append(n)
+            for v in answers(n.ast.value, nid) or [None]:
+                falsy = v is None or (isinstance(v, ast.Constant) and not v.value)
+                if not falsy and not _implies(v, gate, True):
+                    bad.append(n)
+                    break
     bad.sort(key=lambda n: n.line)
     for n in bad:
         R.violation(r, VALIDATOR, IC, norm(n.ast), f"`{norm(n.ast)}` can answer 'compatible' without {p0} == {p1} or issubclass({p0}, {p1}) having been established: a pipeline whose data the run-time gate rejects (TypeError) is accepted by validation", n.line, path=g.path_to(seen, n.id))
